@@ -17,7 +17,7 @@ def S(l):
     return "".join(chr(c) for c in l)
 
 
-def make(rng, kind, v, ad_syntax=False):
+def make(rng, kind, v, ad_syntax=False, dup_values=None):
     """-> list form of the tree"""
     def a():  # SP = 1 + a spaces
         return rng.choice([0, 0, 0, 1, 2, 4])
@@ -63,6 +63,12 @@ def make(rng, kind, v, ad_syntax=False):
     obs = [a()] if v["obsolete"] else []
     head = [w(), U(v["oid"]), name, desc, obs]
     exts = [[a(), U(k), a(), qdstrings(vals)] for k, vals in v["extensions"].items()]
+    if dup_values is not None and v["extensions"]:
+        # a repeated key: the later item replaces the values of the earlier one, the position stays (dict assignment);
+        # the caller updates the expected value accordingly
+        k = rng.choice(list(v["extensions"]))
+        exts.append([a(), U(k), a(), qdstrings(dup_values)])
+        v["extensions"][k] = list(dup_values)
 
     def ol(l):
         return part(oids(l)) if l else []
